@@ -152,16 +152,19 @@ def failure_key(case, why):
 
 def gen_cases(rng, n, quick):
     """n cases: chains of operations on fresh objects (the original stream) and histories on shared objects."""
+    from harness.props import alloc_variants as av
     n_hist = (n * 9) // 20
     n_tmpl = min(n_hist // 3, 3 * len(ac.QKINDS) * len(ac.TKINDS))
-    cases = [ac.gen_hist_template(rng, i) for i in range(n_tmpl)]
-    cases += [ac.gen_hist_case(rng) for _ in range(n_hist - n_tmpl)]
+    n_big = 8 if quick else 60
+    cases = [av.vary(rng, ac.gen_hist_template(rng, i)) for i in range(n_tmpl)]
+    cases += [av.vary(rng, av.gen_big(rng, quick)) for _ in range(n_big)]
+    cases += [av.vary(rng, ac.gen_hist_case(rng)) for _ in range(n_hist - n_tmpl - n_big)]
     cases += [ac.gen_case(rng) for _ in range(n - n_hist)]
     return cases
 
 
 def run(ctx, out, replay=None):
-    n = 640 if ctx.quick() else 6000
+    n = 600 if ctx.quick() else 6000
     out.rule = ("allocations from random dyadic guillotine partitions (also sparse, grid, sliver layouts), occupancy maps "
                 "empty/single/multi/full/fixed, depths 0-3. (a) chains: 1-4 random refinement operations, each applied to the "
                 "result of the previous one (refine with thresholds equal to occurring ratios, uniform depth, griddify); "
